@@ -81,6 +81,11 @@ def pushed_guards(variant, guard_adt):
     for ev in variant.trace:
         if ev.kind == "vec_push" and len(ev.args) == 2 and isinstance(ev.args[1], Adt) and ev.args[1].path == guard_adt:
             out.append((ev, ev.args[1], ev.args[0].e))
+        elif ev.kind == "ext" and ev.name.split("::")[-1] in ("push", "push_back", "push_front", "insert") and ev.args and \
+                isinstance(ev.args[-1], Adt) and ev.args[-1].path == guard_adt:
+            c = ev.args[0]
+            ce = c.e if isinstance(c, (Opaque, Int)) else E("container", (repr(c),))
+            out.append((ev, ev.args[-1], ce))
     return out
 
 
@@ -133,7 +138,11 @@ def teardown_order(tm, inj_adt, field, guard_adt):
             names += [n2 for _, n2, _, cl2 in calls_in(b2) if not cl2]
     sp = body["span"]
     where_ = "%s:%d" % (sp["file"], sp["line"])
-    lifo_markers = [n for n in names if n.endswith("::pop") or n.endswith("::pop_back") or n.endswith("::reverse") or "::rev" in n or "Rev<" in n]
+    BENIGN = ("::pop", "::pop_back", "::reverse", "::drain", "::rev", "::into_iter", "::next", "::next_back", "::len", "::is_empty",
+              "::iter", "::iter_mut", "::as_mut_slice", "::as_slice", "std::mem::take", "std::mem::drop", "::deref", "::deref_mut",
+              "::by_ref", "::truncate")
+    lifo_markers = [n for n in names if n.endswith("::pop") or n.endswith("::pop_back") or n.endswith("::reverse") or n.endswith("::rev")
+                    or "Rev<" in n or n.endswith("::next_back")]
     if lifo_markers:
         # make sure the loop runs until the container is empty: evaluate with loop havoc
         try:
@@ -143,14 +152,14 @@ def teardown_order(tm, inj_adt, field, guard_adt):
         pops = 0
         exits_on_none = True
         drops_popped = False
+        taker = ("::pop", "::pop_back", "::next", "::next_back")
         for v in vs:
-            pe = [e for e in v.trace if e.kind == "ext" and (e.name.endswith("::pop") or e.name.endswith("::pop_back"))]
+            pe = [e for e in v.trace if e.kind == "ext" and e.name.endswith(taker)]
             pops += len(pe)
             if v.status == "backedge":
                 if any(e.kind == "drop" and guard_adt in e.name for e in v.trace) or any(e.kind == "ext" and e.name == "std::mem::drop" for e in v.trace):
                     drops_popped = True
             if v.status == "returned" and pe:
-                # the decision on the pop result must be "None" (discriminant 0)
                 last = [d for d in v.decisions if d[0].op == "discr" and d[0].args[0].op == "ret" and d[0].args[0].args[0] == pe[-1].name]
                 dv = last[-1][1] if last else None
                 is_none = dv == 0 or (isinstance(dv, tuple) and dv[0] == "otherwise" and 1 in dv[1])
@@ -162,10 +171,10 @@ def teardown_order(tm, inj_adt, field, guard_adt):
             for e in v.trace:
                 if e.kind in ("ext", "local", "summary", "indirect"):
                     n = e.name
-                    if n.endswith("::pop") or n.endswith("::pop_back") or n == "std::mem::drop" or n.endswith("::reverse"):
+                    if n.endswith(BENIGN) or "Rev<" in n or "Drain<" in n:
                         continue
                     if v.status == "returned":
-                        pe_ = [x for x in v.trace if x.kind == "ext" and (x.name.endswith("::pop") or x.name.endswith("::pop_back"))]
+                        pe_ = [x for x in v.trace if x.kind == "ext" and x.name.endswith(taker)]
                         if pe_ and e.idx > pe_[-1].idx:
                             continue        # after the loop found the container empty
                     risky.append(e)
@@ -173,11 +182,12 @@ def teardown_order(tm, inj_adt, field, guard_adt):
             r0 = risky[0]
             return "unknown", ("explicit Drop for %s calls %s (at %s) while guards may still be in `%s`: if it panics, unwinding leaves the remaining "
                                "guards to the drop glue, which restores them front to back (oldest first)" % (short(inj_adt), short(r0.name), r0.where(), field)), where_, drop_fn
-        if any(n.endswith("::pop") or n.endswith("::pop_back") for n in lifo_markers):
+        reversing = [n for n in lifo_markers if n.endswith("::reverse") or n.endswith("::rev") or "Rev<" in n or n.endswith("::next_back")]
+        if any(n.endswith("::pop") or n.endswith("::pop_back") for n in lifo_markers) or (reversing and pops):
             if pops and drops_popped and exits_on_none:
-                return "lifo", "explicit Drop for %s pops `%s` from the back until it is empty and drops each guard" % (short(inj_adt), field), where_, drop_fn
-            return "unknown", ("explicit Drop for %s calls pop but the loop shape is not 'pop until None, dropping each element' "
-                               "(pops=%d, drops=%s, exits-on-None=%s)" % (short(inj_adt), pops, drops_popped, exits_on_none)), where_, drop_fn
+                return "lifo", "explicit Drop for %s takes the guards of `%s` from the back until it is empty and drops each" % (short(inj_adt), field), where_, drop_fn
+            return "unknown", ("explicit Drop for %s takes elements from the back but the loop shape is not 'until None, dropping each element' "
+                               "(takes=%d, drops=%s, exits-on-None=%s)" % (short(inj_adt), pops, drops_popped, exits_on_none)), where_, drop_fn
         return "lifo", "explicit Drop for %s reverses the container (%s) before the elements are dropped" % (short(inj_adt), ", ".join(short(n) for n in lifo_markers)), where_, drop_fn
     return "fifo", "explicit Drop for %s does not reverse or pop `%s`; the drop glue then drops the elements front to back" % (short(inj_adt), field), where_, drop_fn
 
